@@ -26,14 +26,31 @@ import (
 // deactivated.
 //
 //gosym:harness
-//gosym:cover foreign-current foreign-other
+//gosym:cover foreign-current foreign-other history-full
 func HarnessC02Manager() {
 	s := kube.New()
 	s.Register(&v1.Provider{}, &v1.ProviderList{}, zzPkgGroup, "Provider")
 	s.Register(&v1.ProviderRevision{}, &v1.ProviderRevisionList{}, zzPkgGroup, "ProviderRevision")
 	p := &v1.Provider{ObjectMeta: metav1.ObjectMeta{Name: zzPkgName, UID: zzPkgUID}}
 	p.Spec.Package = "xpkg.example.org/org/provider-x:v1.0.0"
+	// the revision history may be full, so that the oldest revision listed
+	// is up for garbage collection
+	ownOlder := zz.Choose("own.inactive.revisions", 3)
+	if zz.Bool("package.historyLimited") {
+		p.Spec.RevisionHistoryLimit = ptr.To[int64](1)
+	}
 	s.Put(p)
+	for k := 0; k < ownOlder; k++ {
+		o := &v1.ProviderRevision{ObjectMeta: metav1.ObjectMeta{
+			Name:   "provider-x-own" + string(rune('0'+k)),
+			Labels: map[string]string{v1.LabelParentPackage: zzPkgName},
+			OwnerReferences: []metav1.OwnerReference{{APIVersion: "pkg.crossplane.io/v1", Kind: "Provider", Name: zzPkgName, UID: zzPkgUID, Controller: ptr.To(true)}},
+		}}
+		o.Spec.Revision = int64(2 + k)
+		o.Spec.Package = "xpkg.example.org/org/provider-x:v0.9." + string(rune('0'+k))
+		o.Spec.DesiredState = v1.PackageRevisionInactive
+		s.Put(o)
+	}
 
 	foreign := zz.Str("foreign.uid")
 	zz.Assume(foreign != zzPkgUID)
@@ -62,6 +79,9 @@ func HarnessC02Manager() {
 	s.Put(r)
 	before := runtime.DeepCopyJSON(s.Doc(zzPkgGroup, "ProviderRevision", "", name))
 
+	if p.Spec.RevisionHistoryLimit != nil && ownOlder == 2 {
+		zz.Cover("history-full")
+	}
 	rec := zzReconciler(s, zzRevNames[0])
 	_, err := rec.Reconcile(context.Background(), reconcile.Request{NamespacedName: types.NamespacedName{Name: zzPkgName}})
 
